@@ -18,6 +18,9 @@ for d in sorted(glob.glob("/verif/seeded/*")):
         continue          # seeded/harmless: behaviour-preserving rewrites (tools/tryharmless.py)
     meta = json.load(open(os.path.join(d, "meta.json")))
     prop = meta["property"]
+    if meta.get("not_detected_reason"):
+        print(name, prop, "stated limit (not detected): " + meta["not_detected_reason"][:80], flush=True)
+        continue
     if meta.get("retired"):
         print(name, prop, "retired (no longer breaks the property on the repaired tree)", flush=True)
         continue
